@@ -304,7 +304,7 @@ retry:
 		return fillErrs(len(multi), err)
 	}
 	resp = c.wire.DoMulti(ctx, multi...).s
-	for i, cmd := range multi {
+	for i := range multi {
 		if retryable && isRetryable(resp[i].Error(), c.wire, ctx) {
 			shouldRetry := c.retryHandler.WaitOrSkipRetry(
 				ctx, attempts, multi[i], resp[i].Error(),
@@ -314,6 +314,8 @@ retry:
 				goto retry
 			}
 		}
+	}
+	for i, cmd := range multi { // recycle only once no retry can send the batch again
 		if resp[i].NonRedisError() == nil {
 			cmds.PutCompleted(cmd)
 		}
